@@ -146,6 +146,62 @@ def up_to_date(vo: str) -> bool:
     return p.returncode == 0 and os.path.exists(os.path.join(COQ, vo))
 
 
+class Merged:
+    """A property whose check is assembled from several property modules (MERGE = [...] in the main one):
+    theorem files, theorem lists, suites, trusted base are united; replay / known_match are dispatched."""
+
+    def __init__(self, main: Any, others: List[Any]):
+        self._mods = [main] + others
+        self.ID = main.ID
+        self.PROPS_FILE = main.PROPS_FILE
+        self.PROPS_EXTRA = list(getattr(main, "PROPS_EXTRA", []))
+        for m in others:
+            self.PROPS_EXTRA += [m.PROPS_FILE] + list(getattr(m, "PROPS_EXTRA", []))
+        self.THEOREMS = {}
+        self.GEN_DEPS, self.ALLOWED_AXIOMS, self.TRUSTED, self.ASSUMPTIONS = [], [], [], []
+        rules = []
+        for m in self._mods:
+            self.THEOREMS.update(getattr(m, "THEOREMS", {}))
+            self.GEN_DEPS += list(getattr(m, "GEN_DEPS", []))
+            self.ALLOWED_AXIOMS += list(getattr(m, "ALLOWED_AXIOMS", []))
+            self.TRUSTED += [x for x in getattr(m, "TRUSTED", []) if x not in self.TRUSTED]
+            self.ASSUMPTIONS += [x for x in getattr(m, "ASSUMPTIONS", []) if x not in self.ASSUMPTIONS]
+            rules.append(getattr(m, "RULE", ""))
+        self.RULE = " || ".join(r for r in rules if r)
+
+    def suites(self, tier: str, seed: int) -> List[Suite]:
+        out: List[Suite] = []
+        for m in self._mods:
+            out += m.suites(tier, seed)
+        return out
+
+    def replay(self, inp: Any) -> Case:
+        err: Optional[Exception] = None
+        for m in self._mods:
+            try:
+                return m.replay(inp)
+            except Exception as e:  # try the next module
+                err = e
+        raise err  # type: ignore
+
+    def known_match(self, finding: Any, case: Case) -> bool:
+        for m in self._mods:
+            try:
+                if m.known_match(finding, case):
+                    return True
+            except Exception:
+                pass
+        return False
+
+
+def load_mod(pid: str) -> Any:
+    main = importlib.import_module(f"rgv.props.{pid}")
+    merge = getattr(main, "MERGE", [])
+    if merge:
+        return Merged(main, [importlib.import_module(f"rgv.props.{m}") for m in merge])
+    return main
+
+
 def props_files(mod: Any) -> List[str]:
     """A property's theorem files: PROPS_FILE plus optional PROPS_EXTRA (e.g. files contributed by another proof effort)."""
     return [mod.PROPS_FILE] + list(getattr(mod, "PROPS_EXTRA", []))
@@ -253,7 +309,7 @@ def run_suites(pid: str, suites: List[Suite], tag: str) -> Tuple[List[Tuple[Suit
 
 def check(pid: str, tier: str, seed: int) -> int:
     t0 = time.time()
-    mod = importlib.import_module(f"rgv.props.{pid}")
+    mod = load_mod(pid)
     coqio.clean_corr(pid)
     problems: List[Dict[str, Any]] = []     # broken proofs / pins / correspondence (no concrete input yet)
     violations: List[Dict[str, Any]] = []   # concrete failing inputs (unlisted)
@@ -460,7 +516,7 @@ def check(pid: str, tier: str, seed: int) -> int:
 
 
 def replay(pid: str, path: str) -> int:
-    mod = importlib.import_module(f"rgv.props.{pid}")
+    mod = load_mod(pid)
     obj = json.load(open(path if os.path.isabs(path) else os.path.join(VERIF, path)))
     if obj.get("kind") != "failing-input" and "input" not in obj:
         log(json.dumps(obj, indent=1)[:6000])
